@@ -130,3 +130,14 @@ def neighbours(c, rng):
             ops.append(['nbrs', rng.randint(0, 5), [rng.randint(0, 5)], True])
         out.append(dict(c, ops=ops))
     return out
+
+TECHNIQUE = ('Coq proof by complete enumeration lifted with forallb_forall (bound stated in the theorem) over a step-machine '
+             'model of the iterative Tarjan + correspondence check against DiGraph with the C20 predicate evaluated in Coq '
+             "on the implementation's components")
+LEVEL_TEXT = ('C20_sccs_correct_le3: for every digraph on <= 3 nodes, every root order and every adjacency order, both modes: '
+              'no error, within fuel, each SCC exactly once, partition, default mode = cyclic classes (kernel-checked). '
+              'The model (construction API incl. unknown nodes/KeyError, set semantics, Tarjan machine) is compared with the '
+              'live DiGraph on every run (exhaustive <= 3 nodes quick / <= 4 thorough, random to 30 nodes), and c20_ok '
+              '(written from mutual reachability, independent of the algorithm) is evaluated on what the implementation returned.')
+LEVEL_NOTE = ('Unbounded correctness of Tarjan is not yet proved (bounded theorem + correspondence + predicate on impl output). '
+              'Set iteration order is abstracted: outputs compared as sets of sets.')
